@@ -22,8 +22,8 @@ COQ_STAGES = [
 ]
 OBLIGATIONS = [
     "C42/P_no_escape.v", "C42/P_run_no_escape.v", "C42/P_cwrap_total_guarded.v", "C42/P_cwrap_total_refuted.v",
-    "C42/P_table_no_escape.v", "C42/P_cwrap_agrees_guarded.v", "C42/P_cwrap_agrees_refuted.v", "C42/P_cwrap_agrees_sem.v",
-    "C42/P_wrapped_outcome.v", "C42/P_error_atomic.v", "C42/P_vec_laws.v", "C42/P_vec_out_of_range_refuted.v",
+    "C42/P_table_no_escape.v", "C42/P_cwrap_agrees.v", "C42/P_cwrap_agrees_sem.v",
+    "C42/P_wrapped_outcome.v", "C42/P_error_atomic.v", "C42/P_vec_laws.v", "C42/P_vec_out_of_range_error.v",
     "C42/P_set_laws.v", "C42/P_set_get_refuted.v", "C42/P_map_laws.v", "C42/P_state_inv.v", "C42/P_expression_ops.v",
     "C42/P_hand_model_current.v", "C42/P_nonvacuous.v",
 ]
